@@ -7,11 +7,15 @@
 (* the observed wrong answer is the one the deviation predicts.  Anything  *)
 (* else is a violation.  A deviation that is not open matches nothing.     *)
 (***************************************************************************)
-EXTENDS Chars
+EXTENDS Chars, Dpkg, Rpm
 
 \* mm is a mismatch record; the fields used depend on the deviation.
 Dev(d, mm) ==
   CASE d = "none" -> FALSE
+    \* rpm: compareRPMVersionString is not rpmvercmp (alphabetic segment newer than numeric, '_' and '~'
+    \* glued into alphabetic runs, '^' a plain separator, "" older than "0"); pinned by the repository's
+    \* own tests (1.2.3-1 < 1.2.3-a).  Known iff the implementation model predicts the observed sign.
+    [] d = "KF-rpm-01" -> mm.prop = "C11" /\ mm.why = "ref" /\ RpmImplCmp(S2C(mm.a), S2C(mm.b)) = mm.got
     [] OTHER -> FALSE
 
 KnownAs(open, mm) ==
